@@ -1,5 +1,6 @@
 import PdfModel.Core.Proto
 import PdfModel.Model.Parser
+import PdfModel.Model.ParserCursor
 import PdfModel.Model.Serialize
 import PdfModel.Spec.Render
 import PdfModel.Drv.Obj
@@ -24,6 +25,9 @@ import PdfModel.Drv.Obj
         mode plain: parse_with_lexer         → ok <value> <pos>
         mode ind0 / ind1: parse_indirect_object (allow_missing_endobj 0/1) → ok <id>.<gen> <value> <pos>
         mode stm: parse_stream (id.gen of the context)  → ok <value> <pos>
+  c03.parsec <buf> <pos> <flags> <fileoff> <lens>   parse_with_lexer with the cursor afterwards (Model/ParserCursor)
+                                       → ok <value> <pos> <cursor> | err <cursor> | panic
+  c03.tails                            → the tails of Spec/Render.tails, hex, comma separated
   c03.render val <value> <tape> <tail>          → <bytes>   (Spec/Render.renderWithTail)
   c03.render ind <value> <tape> <tail> <id> <gen>
   c03.render seq <A[values]> <tape> <tail>
@@ -142,6 +146,15 @@ def handle (args : List String) : String :=
     match bufOf b, natOf p, natOf f, natOf off, lenMapOf lens, idOf id with
     | some buf, some pos, some flags, some off, some lens, some id => handleParse mode buf pos flags off lens (some id)
     | _, _, _, _, _, _ => "bad-request"
+  | ["c03.parsec", b, p, f, off, lens] =>
+    match bufOf b, natOf p, natOf f, natOf off, lenMapOf lens with
+    | some buf, some pos, some flags, some off, some lens =>
+      match parseWithLexerC (mkEnv false off lens) buf (defaultFuel buf) pos flags with
+      | (.ok r, c) => s!"ok {showVal r.1} {r.2} {c}"
+      | (.err, c) => s!"err {c}"
+      | (o, _) => o.tag
+    | _, _, _, _, _ => "bad-request"
+  | ["c03.tails"] => joinWith "," (PdfSpec.tails.map hexOfBytes)
   | ["c03.render", "val", v, tape, tail] =>
     match valOf v, tapeOf tape, bytesOfHex tail with
     | some v, some tape, some tail => hexOfBytes (PdfSpec.renderWithTail id v tail tape).1
